@@ -31,6 +31,8 @@ def step_text(step, row=None):
         o = step["o"]
         phrase = o if o.startswith("<") else PHRASE[o]
         text = u"step %s %s" % (step["uid"], phrase)
+        if step.get("tail") is not None:
+            text += u" with " + step["tail"]
         if step.get("a"):
             text = u"async " + text
     if row:
